@@ -232,8 +232,15 @@ func checkC25(c *Ctx) (string, []string) {
 	c.requireSet("C25.beefy", K+"serLastAccOut", fn["serLastAccOut"].Pos(), "serLastAccOut returns", normEachAll(abbrMap(returnShapesO(fn["serLastAccOut"], robustOpts))["ret#0"]), []string{"each[(*types.Encoder).Encode(types.NewEncoder(), &p0[*])#0]", "nil"})
 	{
 		f := fn["AppendAndCommitMmr"]
-		empty := condEdges(f, func(v ssa.Value) (bool, bool) { return exprStr(v, shapeOpts) == "(0 == len(p0.Peaks))", true })
-		c.Check(len(empty) == 1, "C25.beefy", K+"AppendAndCommitMmr · empty belt", f.Pos(), "fresh MMR only when the prior belt has no peaks", "MMR construction is not selected by len(prior peaks) == 0")
+		// a fresh (peak-less) MMR may stand in for the prior belt only where the prior belt has no peaks
+		empty := lenZeroEdgesOf(f, func(x ssa.Value) bool { return exprStr(x, shapeOpts) == "p0.Peaks" })
+		okFresh := true
+		for _, call := range callsIn(f, c.Obj(mmrPkg, "NewMMR")) {
+			if !guardedBy(f, call.(ssa.Instruction), empty) {
+				okFresh = false
+			}
+		}
+		c.Check(okFresh, "C25.beefy", K+"AppendAndCommitMmr · empty belt", f.Pos(), "a fresh MMR is used only where the prior belt has no peaks (otherwise the MMR is built from the prior peaks)", "a fresh MMR replaces the prior belt on a path where the prior belt may have peaks")
 	}
 	return "Provenance and effect tables of the recent-history transition decided on SSA/AST: the one store of History2HistoryDagger, the fields and sources of the appended entry, the grow/evict arms of AddItem2BetaHPrime (copy source, slot index, bound), the sort of reported packages, and the MMR append/commit chain. Does not decide hash values or that untouched entries are bit-identical beyond 'no other store exists'.",
 		[]string{"canonical SSA expression renderer; calls uninterpreted", "expected table transcribed from GP 7.5-7.8"}
